@@ -140,10 +140,10 @@ static const double CANG[] = { 0, 90, 360, -45, -270, -630.5, 180.5, 725 };     
 
 /* transforms */
 enum { T_NONE, T_SCALE2, T_TRANS_HALF, T_ROT90, T_PROJ, T_W2, T_SHEAR, T_PROJ2,
-       T_SING_ZERO, T_SING_RANK1, T_SING_W0, T_SING_WCROSS, T_SING_WNEG, T_HUGE, T_HUGE2, T_COUNT };
+       T_SING_ZERO, T_SING_RANK1, T_SING_W0, T_SING_WCROSS, T_SING_WNEG, T_HUGE, T_HUGE2, T_KEYSTONE, T_COUNT };
 static const char *TNAME[T_COUNT] = { "none", "scale2", "translate-half", "rot90", "projective(w=1+x/32)", "w=2 (scale 1/2)",
     "shear", "projective(w=1+x/64+y/32)", "singular-zero", "singular-rank1", "singular-w=0", "singular-w-crosses-0",
-    "w-negative", "huge-scale(overflow)", "scale4096" };
+    "w-negative", "huge-scale(overflow)", "scale4096", "keystone(w=1+y/32, w does not depend on x)" };
 static const double TM[T_COUNT][9] = {
     { 1, 0, 0, 0, 1, 0, 0, 0, 1 },
     { 2, 0, 0, 0, 2, 0, 0, 0, 1 },
@@ -160,9 +160,10 @@ static const double TM[T_COUNT][9] = {
     { 1, 0, 0, 0, 1, 0, 0, 0, -1 },
     { 16384, 0, 0, 0, 16384, 0, 0, 0, 1 },        /* transform_point_3d overflows */
     { 4096, 0, 0, 0, 4096, 0, 0, 0, 1 },          /* forward differencing leaves the 16.16 range */
+    { 1, 0, 0, 0, 1, 0, 0, 1.0 / 32, 1 },         /* w changes from row to row only: a horizontal gradient is NOT the same on every row */
 };
-static const int TR_QUICK[]    = { T_NONE, T_SCALE2, T_ROT90, T_PROJ, T_W2 };
-static const int TR_THOROUGH[] = { T_NONE, T_SCALE2, T_TRANS_HALF, T_ROT90, T_PROJ, T_W2, T_SHEAR, T_PROJ2 };
+static const int TR_QUICK[]    = { T_NONE, T_SCALE2, T_ROT90, T_PROJ, T_W2, T_KEYSTONE };
+static const int TR_THOROUGH[] = { T_NONE, T_SCALE2, T_TRANS_HALF, T_ROT90, T_PROJ, T_W2, T_SHEAR, T_PROJ2, T_KEYSTONE };
 static const int TR_SAFETY[]   = { T_NONE, T_PROJ, T_SING_ZERO, T_SING_RANK1, T_SING_W0, T_SING_WCROSS, T_SING_WNEG, T_HUGE, T_HUGE2 };
 
 static const int REPS[4] = { PIXMAN_REPEAT_NONE, PIXMAN_REPEAT_NORMAL, PIXMAN_REPEAT_PAD, PIXMAN_REPEAT_REFLECT };
@@ -615,7 +616,7 @@ int main(int argc, char **argv)
               "stop lists with more than 4 stops or positions off the quarter grid, and negative radii are not enumerated");
 
     int nl = th ? NLISTS[4] : NLISTS[3];
-    int ntr = th ? 8 : 5; const int *trs = th ? TR_THOROUGH : TR_QUICK;
+    int ntr = th ? 9 : 6; const int *trs = th ? TR_THOROUGH : TR_QUICK;
     int norg = th ? 2 : 1;
     run_colour("colour-linear", K_LINEAR, nl, th ? 12 + N_LPAIRS_X : 12, ntr, trs, norg);
     run_colour("colour-radial", K_RADIAL, nl, th ? N_RGEO_ALL : N_RGEO_QUICK, ntr, trs, norg);
@@ -635,11 +636,11 @@ int main(int argc, char **argv)
                 "transforms none/scale 2, 4 repeats, the quarter-grid lists plus 4 lists with stops 1/16..1/256 apart"
     vf_bounds = th ? "stop lists: all 1..4-stop lists with non-decreasing positions from {0,1/4,1/2,1/2,3/4,1} x 4 colours per stop; linear 12 ordered "
                      "point pairs + 4 extra (vertical, half-pixel span, long span, off-grid); radial 17 circle pairs (a<0, a>0, a=0, equal radii, zero "
-                     "radii, identical circles); conical 3 centres x 8 angles (incl. -270, -630.5, 725); 4 repeat modes; 8 transforms (none, scale 2, translate 1/2, rotate 90, "
+                     "radii, identical circles); conical 3 centres x 8 angles (incl. -270, -630.5, 725); 4 repeat modes; 9 transforms (keystone w = 1 + y/32, none, scale 2, translate 1/2, rotate 90, "
                      "2 projective, w=2, shear); 2 origins; fresh image and image first used with another repeat mode; 2 pipelines.  Safety: 14 unsorted/out-of-range/extreme stop lists x degenerate geometries "
                      "x 9 transforms (5 singular/overflowing) x 4 repeats x 2 origins; n_stops <= 0." FAR_TXT " (grid lists with <= 3 stops)"
                    : "stop lists: all 1..3-stop lists with non-decreasing positions from {0,1/4,1/2,1/2,3/4,1} x 4 colours per stop; linear 12 ordered "
-                     "point pairs; radial 12 circle pairs; conical 3 centres x 6 angles (0, 90, 360, -45, -270, -630.5); 4 repeat modes; 5 transforms (none, scale 2, rotate 90, "
+                     "point pairs; radial 12 circle pairs; conical 3 centres x 6 angles (0, 90, 360, -45, -270, -630.5); 4 repeat modes; 6 transforms (keystone w = 1 + y/32, none, scale 2, rotate 90, "
                      "projective, affine with w=2); origin (0,0); fresh image and image first used with another repeat mode; 2 pipelines.  Safety spaces as in the thorough tier." FAR_TXT " (grid lists with <= 2 stops)";
     return vf_finish();
 }
